@@ -174,6 +174,101 @@ func (c *Ctx) checkSingleStatementAccess(r *Report, rule string) {
 			k++
 			desc := "constant-index statement access #" + itoa(k) + " is on the exact-length edge"
 			exact := false
+			exactLen := func(cond ssa.Value, edge int, slice ssa.Value) bool {
+				bin, ok := cond.(*ssa.BinOp)
+				if !ok {
+					return false
+				}
+				kk, isK := constInt(bin.Y)
+				lc, isLen := bin.X.(*ssa.Call)
+				if !isK || !isLen || kk != idx+1 {
+					return false
+				}
+				bi, isBi := lc.Common().Value.(*ssa.Builtin)
+				if !isBi || bi.Name() != "len" {
+					return false
+				}
+				arg := lc.Common().Args[0]
+				if !(arg == slice || (isStmtsSlice(arg) && isStmtsSlice(slice) && sameStmtsOwner(arg, slice))) {
+					return false
+				}
+				return (bin.Op == token.EQL && edge == 0) || (bin.Op == token.NEQ && edge == 1)
+			}
+			// a named predicate on the statement list: true only when the list has exactly idx+1 elements
+			for _, cc := range controlling(ia.Block()) {
+				cond, edge := cc.Cond, cc.Edge
+				if u, ok := cond.(*ssa.UnOp); ok && u.Op == token.NOT {
+					cond, edge = u.X, 1-edge
+				}
+				call, ok := cond.(*ssa.Call)
+				if !ok || edge != 0 {
+					continue
+				}
+				p := call.Common().StaticCallee()
+				if p == nil || len(p.Blocks) == 0 || p.Pkg != fn.Pkg {
+					continue
+				}
+				for ai, a := range call.Common().Args {
+					ld, isLd := ia.X.(*ssa.UnOp)
+					if !isLd || ai >= len(p.Params) {
+						continue
+					}
+					fa, isFA := ld.X.(*ssa.FieldAddr)
+					if !isFA || !(fa.X == a || sameValue(fa.X, a)) {
+						continue
+					}
+					// inside the predicate: every return that can be true lies under the exact-length test on that parameter
+					param := p.Params[ai]
+					implies := true
+					sliceOf := func(b *ssa.BasicBlock, conds []ctrlCond) bool {
+						for _, pc := range conds {
+							bin, ok := pc.Cond.(*ssa.BinOp)
+							if !ok {
+								continue
+							}
+							if lc, ok := bin.X.(*ssa.Call); ok && len(lc.Common().Args) == 1 {
+								if ld2, ok := lc.Common().Args[0].(*ssa.UnOp); ok {
+									if fa2, ok := ld2.X.(*ssa.FieldAddr); ok && fa2.X == ssa.Value(param) && fa2.Field == fidx {
+										if exactLen(pc.Cond, pc.Edge, lc.Common().Args[0]) {
+											return true
+										}
+									}
+								}
+							}
+						}
+						return false
+					}
+					eachInstr(p, func(pin ssa.Instruction) {
+						ret, ok := pin.(*ssa.Return)
+						if !ok || len(ret.Results) != 1 {
+							return
+						}
+						var mayBeTrue func(v ssa.Value, b *ssa.BasicBlock, conds []ctrlCond) bool
+						mayBeTrue = func(v ssa.Value, b *ssa.BasicBlock, conds []ctrlCond) bool {
+							if k, ok := v.(*ssa.Const); ok {
+								bv, isB := constBool(k)
+								return !isB || bv
+							}
+							if phi, ok := v.(*ssa.Phi); ok {
+								for e, ev := range phi.Edges {
+									pred := phi.Block().Preds[e]
+									if mayBeTrue(ev, pred, edgeConds(pred, phi.Block())) && !sliceOf(pred, edgeConds(pred, phi.Block())) {
+										return true
+									}
+								}
+								return false
+							}
+							return !sliceOf(b, conds)
+						}
+						if mayBeTrue(retVal(ret, 0), ret.Block(), controlling(ret.Block())) {
+							implies = false
+						}
+					})
+					if implies {
+						exact = true
+					}
+				}
+			}
 			for _, cc := range controlling(ia.Block()) {
 				bin, ok := cc.Cond.(*ssa.BinOp)
 				if !ok {
